@@ -235,6 +235,19 @@ def _gen_slice(repo, blk, gen):
         s1 = rtok.match_close(src.s, opener)
         if blk.get('inner'):
             s0, s1 = opener + 1, s1 - 1
+    elif blk.get('through_block'):
+        # the slice ends at the `}` closing the first `{` block that opens at delimiter depth 0 after `from`
+        k = s0
+        depth = 0
+        while True:
+            t = src.s[k].text
+            if t == '{' and depth == 0:
+                break
+            if t in rtok.OPEN: depth += 1
+            elif t in rtok.CLOSE: depth -= 1
+            k += 1
+            if k > j: raise LostAnchor(f'{a["name"]}: block not found')
+        s1 = rtok.match_close(src.s, k)
     elif blk.get('through_stmt') is not None:
         # the slice ends at the `;` closing the statement that starts with the anchor (first after `from`)
         hits2, n2 = outer.find(blk['through_stmt'] or blk['from'], lo=s0, unique=False, what='through_stmt')
@@ -357,7 +370,7 @@ def generate(repo, template_text, variables=None):
                 blk.setdefault('after_all', []).append((frm.strip(), to.strip()))
             elif d in ('strip', 'keep_attrs', 'from', 'through', 'through_stmt'):
                 blk[d] = rest
-            elif d in ('through_close', 'inner', 'make_pub'):
+            elif d in ('through_close', 'inner', 'make_pub', 'through_block'):
                 blk[d] = True
             else:
                 raise TemplateError(f'line {i+1}: unknown directive {d}')
